@@ -255,7 +255,11 @@ def judge(plan, ir, defaults, fields_of, verdict_cb):
     if not faulty:
         # ---- valid never fails
         if not ok_call:
-            verdict_cb({"lang": lang, "law": "valid_never_fails", "cause": "option-call-" + ("panics" if go else "raises")},
+            cause = "option-call-" + ("panics" if go else "raises")
+            if not go and any(ev["Value"].get("Constant") is not None for c in plan.calls for a in c["opt"].get("Assignments") or []
+                              for ev in ((a["Value"].get("Envelope") or {}).get("Values") or [])):
+                cause = "envelope-constant-keyword-argument"
+            verdict_cb({"lang": lang, "law": "valid_never_fails", "cause": cause},
                        "call %s on valid arguments (raised %s)" % (r.get("call"), r.get("raised")))
             return
         if go:
@@ -289,6 +293,8 @@ def judge(plan, ir, defaults, fields_of, verdict_cb):
         cause = CAUSE.get(c0["want"], "failing-nested-builder") if hard else "failing-nested-builder"
         if hard and cause == "direct-constraint" and any(a["Method"] == "append" for a in c0["opt"].get("Assignments") or []):
             cause = "appended-element-constraint"
+        if hard and cause == "direct-constraint" and any(a["Method"] == "index" for a in c0["opt"].get("Assignments") or []):
+            cause = "indexed-element-constraint"
         if go:
             if ok_call and bld.get("s") == "ok":
                 verdict_cb({"lang": lang, "law": "invalid_reported", "cause": cause},
@@ -345,7 +351,7 @@ def run(ctx, verdict, replay=None, model_ok=True):
         batch.add({"pkg": job["pkg"], "root": "Root", "defs": []}, job["fmt"], veneers=job["veneers"], text=job["schema_text"])
         replay_plans.append(job)
     else:
-        n = 150 if thorough else 40
+        n = 150 if thorough else 70
         k = 0
         for fmt in srcgen.FORMATS:
             for _ in range(n):
@@ -566,8 +572,7 @@ def run(ctx, verdict, replay=None, model_ok=True):
         "propfails_on_impl": {k: len(v) for k, v in pf.items()},
         "cases_validated_against_impl": len(live) - len(unm) - len(mm),
     }
-    return {"coverage": cov, "unexplained_mismatches": [u for u in unexplained if True] if not all(
-        i in explained for i in mm) else [u for i, u in zip(mm, unexplained) if i not in explained],
+    return {"coverage": cov, "unexplained_mismatches": [u for i, u in zip(mm, unexplained) if i not in explained],
             "search_note": "generated schemas x veneers x (every option x valid / constraint-violating / failing-nested arguments, random call sequences) on the real Go and Python builders"}
 
 
